@@ -1,6 +1,7 @@
 use crate::asn::{Asn, Type};
 use crate::model::{Definition, LiteralValue, Model, Target, ValueReference};
 use crate::resolve::{Error, LitOrRef, Resolved, Resolver, Unresolved};
+use std::convert::TryFrom;
 
 #[derive(Default)]
 pub struct MultiModuleResolver {
@@ -125,7 +126,8 @@ impl Resolver<usize> for ResolveScope<'_> {
             LitOrRef::Lit(lit) => Ok(*lit),
             LitOrRef::Ref(name) => {
                 match self.value_reference(name).map(|vr| vr.value.to_integer()) {
-                    Some(Some(value)) => Ok(value as usize),
+                    Some(Some(value)) => usize::try_from(value)
+                        .map_err(|_| Error::FailedToParseLiteral(format!("name: {}", name))),
                     Some(None) => Err(Error::FailedToParseLiteral(format!("name: {}", name))),
                     None => Err(Error::FailedToResolveReference(name.clone())),
                 }
